@@ -22,7 +22,7 @@ CS = dict(
     undefined_ok=["psGetOutputBlockLength"],
     unwind=90, unwindset={"vf_harness:/for \\(i = 0; i < SSL_MAX_DISABLED/": 34, "vf_harness:/for \\(i = 0; i < 8/": 10, "table_index:/./": 90},
     cap_s=1500,
-    cases=[dict(name="op%d" % o, defs={"VF_OP": o}) for o in (0, 1, 2)],
+    cases=[dict(name="op%d" % o, tier=("thorough" if o == 1 else "quick"), defs={"VF_OP": o}) for o in (0, 1, 2)],
 )
 SCSV = dict(
     name="fallback_scsv", src="fallback_scsv.c", checks=[],
